@@ -501,3 +501,19 @@ Theorem C13_tie_header_calls :
   Src.HEADER_DUMP_CALLS = SrcTieHeader.dump_calls_model.
 Proof. exact SrcTieHeader.header_from_calls. Qed.
 Print Assumptions C13_tie_header_calls.
+
+(* ---------- Tie A, level 1: compress.rs translated (work package compT, gen/Src3c.v) ---------- *)
+(* the translated writer: write / finalize / flush (flush forwards and changes neither the variant, `written` nor the size table) *)
+From MLA Require SrcTie3CompW.
+Theorem C13_tie_cw_flush_src : ltac:(let t := type of SrcTie3CompW.cw_flush_src in exact t).
+Proof. exact SrcTie3CompW.cw_flush_src. Qed.
+Print Assumptions C13_tie_cw_flush_src.
+Theorem C13_tie_wwc_flush_src : ltac:(let t := type of SrcTie3CompW.wwc_flush_src in exact t).
+Proof. exact SrcTie3CompW.wwc_flush_src. Qed.
+Print Assumptions C13_tie_wwc_flush_src.
+Theorem C13_tie_cw_write_sim : ltac:(let t := type of SrcTie3CompW.cw_write_sim in exact t).
+Proof. exact SrcTie3CompW.cw_write_sim. Qed.
+Print Assumptions C13_tie_cw_write_sim.
+Theorem C13_tie_cw_finalize_src : ltac:(let t := type of SrcTie3CompW.cw_finalize_src in exact t).
+Proof. exact SrcTie3CompW.cw_finalize_src. Qed.
+Print Assumptions C13_tie_cw_finalize_src.
